@@ -16,12 +16,65 @@ PROPS = {
                      'fixpoint sentence: follows from the two contracts (parse consumes canon-equal bytes; write emits ser) - the composition lemma over whole packages is stated per segment in meta_parsed, not as one closed lemma'],
         explanation='Write side: every serialiser emits exactly ser(x) (Verus, verbatim bodies, any sink). Read side: Header::parse / parse_header (including the real per-type decode loop, desugared to an index loop) / parse_signature / PackageMetadata::parse / Package::parse consume exactly the serialised length and return a value whose serialisation equals the consumed bytes with the reserved intro bytes and signature padding zeroed (meta_parsed), unbounded in entry count, store size and payload; fixed-size leaves (intro, index entry, lead) are complete Kani proofs over all 16/96-byte inputs.',
     ),
+    'C02': dict(
+        level='proof', verus=['c02_verify_sig', 'c03_digests'],
+        trusted_base=[A_TOOLS, A_EXTRACT, 'A-PGP: a Verifying implementation is a function of the bytes and the signature it is shown (`accepts` uninterpreted); base64 decoding is a total function into Option; the pgp crate verifier and its key/subkey selection (signature/pgp.rs) are NOT under contract',
+                      'A-HASH (via C03), A-LEAF-LINK: getters = K:k_getters_*, Header::write = unit c14_writers, verify_digests = unit c03_digests'],
+        assumptions=['second sentence of C02 (any parsed-value-changing modification of a signed package is rejected) is a corollary only under A-PGP soundness and SHA-256 collision freedom: stated, not proved'],
+        explanation='Verbatim body of Package::verify_signature: Ok ==> digests_ok and (OpenPGP array present ==> at least one signature and every one of them base64-decodes and is accepted over exactly ser(header)) and (otherwise ==> at least one of RSA/DSA/PGP present, each present one accepted over ser(header), resp. ser(header)++payload for the legacy tag); every signature-header shape and every accept/reject pattern at once.',
+    ),
+    'C03': dict(
+        level='proof', verus=['c03_digests'],
+        trusted_base=[A_TOOLS, A_EXTRACT, 'A-HASH: md5 / sha1 / sha2 / hex compute MD5 / SHA-1 / SHA-256 / lower-case hex; modelled as uninterpreted functions (hex injective)',
+                      'A-LEAF-LINK: getter contracts (prelude/getters.rs) are the assertions of K:k_getters_*; DigestAlgorithm::from_u32 map is K:k_digest_algo; Header::write contract is proved in unit c14_writers'],
+        assumptions=['R11: != between &[u8]/Vec<u8>/&str/String is content inequality (std PartialEq)',
+                     '`recorded` = the standard tag is present with its standard data type (MD5 binary; SHA1/SHA256 string; PAYLOADDIGEST string array together with PAYLOADDIGESTALGO int32)'],
+        explanation='Verbatim body of Package::verify_digests: Ok <==> every recorded digest equals the digest recomputed from ser(header) / payload (both directions), Err is DigestMismatchError unless the payload algorithm is unsupported, unsupported algorithm => Err, no panic obligations left; all packages and all corruption positions at once because hashes are uninterpreted.',
+    ),
+    'C04': dict(
+        level='proof', verus=['c01_parse', 'c03_digests', 'c02_verify_sig', 'c16_offsets'],
+        trusted_base=[A_TOOLS, A_EXTRACT, 'A-IO std Read/Take contracts; A-LEAF-LINK leaf contracts = Kani harness assertion sets; R17: every slicing expression is rewritten to a prelude function whose PRECONDITION is the no-panic condition, so each slice is a proof obligation'],
+        assumptions=['claimed per function, not for the reader as a whole: NOT covered are the decompressors (zstd/xz FFI, flate2), the pgp packet parser behind signature_key_ids, the iterator-adapter accessor code of package.rs, and heap proportionality beyond the explicit allocation requests (Header::parse buffer via Take, reserve_exact bound, cpio name buffer)',
+                     'Verus: absence of overflow / out-of-bounds / unwrap-on-None / debug_assert failure is an automatic obligation of every extracted body; Kani: the same plus pointer checks, bit-precise'],
+        explanation='Every reader function brought under contract is panic-, overflow- and OOB-free for ALL its inputs: fixed-size parsers (intro, index entry, lead) by complete Kani proofs; Header::parse / parse_header incl. the per-type decode loop / parse_signature / PackageMetadata::parse / Package::parse / verify_digests / verify_signature / segment offsets / cpio Reader::new, read, finish, FileIterator::next by Verus on the verbatim bodies; decode helpers, getters and echo_signature by bounded Kani harnesses.',
+    ),
+    'C05': dict(
+        level='proof', verus=['c01_parse', 'c16_offsets'],
+        trusted_base=[A_TOOLS, A_EXTRACT, 'A-LEAF-LINK: decode helper contracts = K:k_take_till_nul, k_parse_binary_entry, k_dec_u16/u32/u64 on the real functions with real nom', 'A-LOSSY: from_utf8_lossy is a total function of the bytes'],
+        assumptions=['NOT covered: get_file_paths, get_file_entries, get_dependencies, get_changelog_entries, get_scriptlet (multizip / try_fold / collect / Path::join bodies that Verus rejects and CBMC cannot finish): "file lists assembled as directory[dirindex]+basename" and "lists zipped in order" are not decided',
+                     'typed getters are bounded Kani proofs (3-entry headers)'],
+        explanation='parse_header (verbatim, incl. the real decode loop): for EVERY entry of every accepted header the stored data equals an independent decoding of the store bytes written as spec functions (strings up to the first NUL, integer arrays big-endian at full length, string / i18n arrays item by item with terminators skipped, binary verbatim) - postcondition decoded(entry, store), unbounded; typed getters return the first entry with the tag iff its type matches, else the documented error (Kani, 3 entries); get_installed_size prefers LONGSIZE then SIZE.',
+    ),
+    'C08': dict(
+        level='proof', verus=['c10_sign'],
+        trusted_base=[A_TOOLS, A_EXTRACT, 'A-HASH: sha2 / hex compute SHA-256 / lower-case hex (uninterpreted)',
+                      'A-LEAF-LINK: Header::write contract proved in unit c14_writers',
+                      'axiom_built_sig_digest: SignatureHeaderBuilder::build stores the digest under RPMSIGTAG_SHA256 as a string (build itself uses from_entries and the pgp packet parser and is not under a Verus contract; checked bounded by K:k_sighdr_digest where it finishes)'],
+        assumptions=['NOT covered: payload digest, alternate (uncompressed) payload digest and per-file digests are computed inside prepare_data / add_data (not under contract); what is proved is the hashing writer they are computed through and the header digest on build / sign / clear'],
+        explanation='Sha256Writer::write (verbatim, any inner sink): the hasher absorbs exactly the bytes the inner writer accepted (Ok(n): buf[..n]; Err: nothing) and into_digest is sha256 of them; PackageBuilder::build, Package::sign_with_timestamp, Package::clear_signatures: the SHA-256 stored in the signature header is hex(sha256(ser(header))) of the header that ends up in the package.',
+    ),
+    'C10': dict(
+        level='proof', verus=['c10_sign', 'c02_verify_sig'],
+        trusted_base=[A_TOOLS, A_EXTRACT, 'A-PGP: Signing::sign returns the signer output over exactly the bytes it is shown; Verifying is a function of bytes and signature; real-key semantics (verifies iff same key) and key-id reporting are functional correctness of the pgp crate: assumed / not covered',
+                      'built_sig: the signature header is an (uninterpreted) function of the builder state'],
+        assumptions=['R21: the TryInto<Timestamp> conversion at the sign API boundary is dropped (C20 subject)',
+                     'NOT covered: signature_key_ids (base64 reader, pgp Signature::issuer, iterator adapters)'],
+        explanation='sign_with_timestamp / clear_signatures (verbatim): lead, main header and payload are unchanged (frame, also on Err); the signature header becomes build(digest = hex(sha256(ser(header))), signatures = [signer output over exactly ser(header)]) resp. no signatures; lemma_history: by induction over ALL histories of {sign, clear, write+parse} header and payload stay byte-identical and the signature segment is the one of the last sign/clear; with C02 the package verifies iff the verifier accepts that signature over ser(header).',
+    ),
     'C14': dict(
         level='proof', verus=['c14_writers', 'c01_parse'],
         trusted_base=[A_TOOLS, A_EXTRACT, 'A-IO: verus/prelude/io.rs states the documented std::io::Write contract (write accepts n<=len bytes or fails having accepted none; write_all appends all or fails having appended a prefix)',
                       'A-LEAF-LINK: BeBytes contract == std to_be_bytes, proved for all values by Kani k_be_link'],
         assumptions=['Error conversions performed by `?` are abstracted to one enum (R4): no effect on control flow'],
         explanation='Read side: the parsers use the source only through read_exact / read_to_end / Take::read_to_end whose contracts mention the remaining stream content, never its chunking, so parse is a function of the byte string and inputs shorter than lead+two intros are Err (postconditions of PackageMetadata::parse / Package::parse). Write side: for ANY sink obeying the Write contract (universally quantified VWrite), every serialiser (intro, index entry, header, signature header + padding, lead, metadata, package) returns Ok only after the sink accepted exactly the canonical bytes and Err only after a prefix of them; proved on the verbatim bodies, unbounded in entries/store/payload.',
+    ),
+    'C15': dict(
+        level='proof', verus=[],
+        trusted_base=[A_TOOLS],
+        assumptions=['claimed for ONE sentence only: "every compression type parses back from its own textual name". EVR / NEVRA round trip and no-panic on arbitrary text are &str algorithms (split/find/rfind with closures): not decidable by Verus (no specs) or Kani (did not terminate on 2-byte strings) - not claimed',
+                     'the names are the literals of the Display impl ("none", "gzip", "zstd", "xz", "bzip2"); Display itself goes through core::fmt and is not executed by the harness'],
+        explanation='Loop-free Kani harness over all five CompressionType values: from_str(name(c)) == Ok(c). Complete for that sentence.',
+        technique='contract-based: Kani harness over the complete 5-value domain on the real FromStr impl',
     ),
     'C16': dict(
         level='proof', verus=['c16_offsets'],
